@@ -1296,6 +1296,19 @@ wait_attempt(rawl *l, uint64_t t_drop, const redial_ctx *c, const char *cause)
 		return -1;
 	}
 	if (getenv("C14_DEBUG")) {
+		nng_duration v = -7;
+		int rv = nng_dialer_get_ms(eps[0].d, NNG_OPT_RECONNMINT, &v);
+		fprintf(stderr, "DEBUG dialer %u open=%d get_ms rv=%d v=%d sockstate=%d\n", eps[0].id, atomic_load(&eps[0].open), rv, v, atomic_load(&cs[0]->state));
+		pthread_mutex_lock(&evmtx);
+		for (int i = evn > 12 ? evn - 12 : 0; i < evn; i++) fprintf(stderr, "DEBUG ev[%d] pipe %u %s closed=%d d=%u\n", i, evlog[i].pipe, evname[evlog[i].ev], evlog[i].closed, evlog[i].dialer);
+		pthread_mutex_unlock(&evmtx);
+	}
+	if (getenv("C14_PAUSE")) {
+		fprintf(stderr, "PAUSED pid %d\n", (int) getpid());
+		vf_watchdog(0);
+		vf_msleep(45000);
+	}
+	if (getenv("C14_DEBUG")) {
 		nng_stat *st;
 		char cmd[128];
 		fprintf(stderr, "DEBUG none: port=%u listening=%d fd=%d\n", l->port, l->listening, l->fd);
@@ -1456,6 +1469,7 @@ redial_raw_case(long idx, vf_rng *r, uint64_t key, int tran)
 			break;
 		}
 		cause = actnames[act];
+		if (getenv("C14_DEBUG")) fprintf(stderr, "DEBUG action %d: %s k=%d\n", a, cause, k);
 		vf_stat("drops_injected", 1);
 		vf_class("redial/%s/%s/reconn=%d-%d", c.tran, cause, c.rmin, c.rmax);
 		fd = -1;
@@ -2043,6 +2057,19 @@ listen_case(long idx)
 	}
 }
 
+#include <execinfo.h>
+static void
+dbg_ev(int ev, const void *obj, uintptr_t a, uintptr_t b)
+{
+	(void) b;
+	if ((ev == NNI_VE_AIO_FINISH || ev == NNI_VE_AIO_REFUSED) && (int) a == NNG_ESTOPPED) {
+		void *bt[14];
+		int   n = backtrace(bt, 14);
+		fprintf(stderr, "DEBUG aio %p ev=%d ESTOPPED\n", obj, ev);
+		backtrace_symbols_fd(bt, n, 2);
+	}
+}
+
 // ================================================================== main
 int
 main(int argc, char **argv)
@@ -2054,6 +2081,7 @@ main(int argc, char **argv)
 	if (getenv("C14_DEBUG")) {
 		nng_log_set_logger(nng_stderr_logger);
 		nng_log_set_level(NNG_LOG_DEBUG);
+		vf_ev_hook(dbg_ev);
 	}
 	const char *mode = vf_mode[0] ? vf_mode : "events";
 	for (long idx = 0; idx < vf_cases; idx++) {
